@@ -8,6 +8,12 @@
 set -u
 D=$(cd "$1" && pwd); ID=$2; shift 2
 export GOFLAGS=-mod=mod GOPROXY=off GOSUMDB=off GOTOOLCHAIN=local
+# Builds against scratch worktrees fill the Go build cache quickly (every worktree path gives new cache
+# entries for the whole harness: a few hundred MB each).  They get a cache of their own, emptied when it
+# grows beyond 12 GB (flock: several of these scripts may run at once).
+export GOCACHE=/tmp/verif-gocache
+mkdir -p $GOCACHE
+( flock 9; sz=$(du -s --block-size=1G $GOCACHE 2>/dev/null | cut -f1); if [ "${sz:-0}" -gt 12 ]; then rm -rf $GOCACHE/*; fi ) 9>/tmp/verif-gocache.lock
 WT=/tmp/sc-$$
 flock /tmp/seedcheck.lock git -C /repo worktree add --detach "$WT" HEAD -q || exit 2
 cleanup() { flock /tmp/seedcheck.lock git -C /repo worktree remove --force "$WT" 2>/dev/null; rm -rf "$WT.build" /tmp/sc-$$.*; [ "${APPLY_TO_REPO:-}" = 1 ] && git -C /repo checkout -q -- . ; }
